@@ -676,7 +676,9 @@ func createConnHandler(
 				return err
 			}
 			if recvErr == nil {
-				if err := clientStream.SendMsg(args); err != nil {
+				// io.EOF: the backend has ended the call already; what it
+				// answered and its status come out of RecvMsg below.
+				if err := clientStream.SendMsg(args); err != nil && err != io.EOF {
 					return err
 				}
 			}
